@@ -879,6 +879,17 @@ def boundary_cases(add, rng, tier, cov):
     cov["conversion-to-floating-point boundary fractions (deterministic)"] = len(cb)
     for x in cb:
         conv_float_cases(add, x)
+    # ---- machine-int operand sharing a factor with the denominator / numerator (Rational op int, int op Rational; both modes)
+    B130 = 2**130
+    for x, k in [((1, 2), 2), ((5, 6), 4), ((5, 6), -3), ((-7, 12), 18), ((3, B130), 2), ((B130 + 1, 3 * B130), 6), ((4, 9), 2), ((-4, 9), -6), ((6, 1), 3),
+                 ((1, I32MAX), I32MAX), ((1, 2**31), I32MIN), ((5, 6), 0), ((5, 6), 1), ((5, 6), -1), ((0, 1), 4)]:
+        fx, fk = fr(x), Fraction(k)
+        for red in (1, 0):
+            for sym, (mop, f) in BIN.items():
+                add("op" + sym + ".int_r", red, flat(x) + [k], mop, flat(x, (k, 1)), "throw" if (sym == "/" and k == 0) else "rat",
+                    None if (sym == "/" and k == 0) else f(fx, fk))
+                add("op" + sym + ".int_l", red, flat(x) + [k], mop, flat((k, 1), x), "throw" if (sym == "/" and x[0] == 0) else "rat",
+                    None if (sym == "/" and x[0] == 0) else f(fk, fx))
     # ---- rounding boundaries
     rb = rounding_boundaries()
     cov["rounding boundary fractions (halves, neighbours of halves, integers; 1..3 limbs; both signs)"] = len(rb)
